@@ -68,7 +68,7 @@ fn snap_text(s: &VerifRegistrySnapshot) -> String {
         match m { None => "~".to_string(), Some(m) => hex(m.as_bytes()) },
         if p.is_empty() { "-".into() } else { p.iter().map(|x| x.to_string()).collect::<Vec<_>>().join(".") },
         *pr as u8)).collect();
-    format!("S{}|R{}|M{}|T{}", a.join(";"), hx(&s.by_rid), hx(&s.by_mid), t.join(";"))
+    format!("S{}|R{}|M{}|T{}|W{}", a.join(";"), hx(&s.by_rid), hx(&s.by_mid), t.join(";"), s.ssrc_sweep_at)
 }
 
 /// one-byte-header (0xBEDE) element scan written from RFC 8285 §4.2 for the oracle (not from the code)
@@ -145,11 +145,13 @@ pub async fn dexec(ops: &[DOp]) -> DOut {
     let mut cleared_since: [bool; NL] = [true; NL];
     let mut pts_of: [Vec<u8>; NL] = Default::default();             // payload types a listener registered
     let mut prov_of: [bool; NL] = [false; NL];
+    // SSRCs the application registered explicitly (register_listener_sync) and that no extension-routed packet has touched since
+    let mut ssrc_owner: BTreeMap<u32, usize> = BTreeMap::new();
     let mut seq = 0u16;
     for (i, op) in ops.iter().enumerate() {
         let mut res = "-".to_string();
         match op {
-            DOp::Ssrc(s, l) => { tr.register_listener_sync(*s, txs[*l].clone()); registered[*l] = true; cleared_since[*l] = false; }
+            DOp::Ssrc(s, l) => { tr.register_listener_sync(*s, txs[*l].clone()); registered[*l] = true; cleared_since[*l] = false; ssrc_owner.insert(*s, *l); }
             DOp::Rid(r, l) => { tr.register_rid_listener(r.clone(), txs[*l].clone()); registered[*l] = true; cleared_since[*l] = false; rid_owner.insert(r.clone(), *l); }
             DOp::Mid(m, l) => { tr.register_mid_listener(m.clone(), txs[*l].clone()); registered[*l] = true; cleared_since[*l] = false; section[*l] = Some(m.clone()); mid_owner.insert(m.clone(), *l); }
             DOp::Pts(p, l) => { tr.register_payload_list_listener(p.clone(), txs[*l].clone()); registered[*l] = true; cleared_since[*l] = false; pts_of[*l] = p.clone(); }
@@ -158,7 +160,7 @@ pub async fn dexec(ops: &[DOp]) -> DOut {
             DOp::Close(l) => { rxs[*l] = None; }
             DOp::RidExt(x) => { tr.set_rid_extension_id(if *x == 0 { None } else { Some(*x) }); rid_ext = *x; }
             DOp::MidExt(x) => { tr.set_sdes_mid_extension_id(if *x == 0 { None } else { Some(*x) }); mid_ext = *x; }
-            DOp::Clear => { res = format!("n{}", tr.clear_listeners()); cleared_since = [true; NL]; rid_owner.clear(); mid_owner.clear(); section = Default::default(); pts_of = Default::default(); prov_of = [false; NL]; }
+            DOp::Clear => { res = format!("n{}", tr.clear_listeners()); cleared_since = [true; NL]; rid_owner.clear(); mid_owner.clear(); section = Default::default(); pts_of = Default::default(); prov_of = [false; NL]; ssrc_owner.clear(); }
             DOp::Pkt { ssrc, pt, ext } => {
                 seq = seq.wrapping_add(1);
                 let pre = tr.verif_registry_snapshot(&txs);
@@ -186,6 +188,16 @@ pub async fn dexec(ops: &[DOp]) -> DOut {
                 // ghost: listeners 2 and 3 stand for simulcast-layer listeners of receivers 0 and 1 (separate channels
                 // that never register a MID themselves, as in peer_connection.rs); their media section is their parent's
                 let section_of = |l: usize| -> Option<String> { section[l].clone().or_else(|| if l >= 2 { section[l - 2].clone() } else { None }) };
+                // "… else by SSRC": a packet without RID / MID value whose SSRC the application registered for an OPEN listener
+                // reaches exactly that listener — whatever sweeping of closed bindings happened in between
+                if rid_val.is_none() && mid_val.is_none() {
+                    if let Some(a) = ssrc_owner.get(ssrc).copied() {
+                        if rxs[a].is_none() { ssrc_owner.remove(ssrc); }
+                        else if !(got.len() == 1 && got[0].0 == a) {
+                            fails.push(("demux:registered-ssrc-not-delivered-to-its-listener".into(), format!("step {i}: SSRC {ssrc} was registered for open listener {a}, packet went to {:?}", got.iter().map(|g| g.0).collect::<Vec<_>>())));
+                        }
+                    }
+                } else { ssrc_owner.remove(ssrc); } // an extension-routed packet may legitimately re-bind (or, on a closed listener, unbind) this SSRC
                 // "… else by SSRC": an unregistered MID does not stop the chain — a packet whose SSRC is bound to an open
                 // receiver that registered for NO section must still reach it (no over-dropping)
                 if got.is_empty() && rid_named.is_none() && live_mid_owner.is_none() {
@@ -658,6 +670,32 @@ pub fn run(args: &Args) {
             demit(&mut run, &ops).await;
         }
         run.count_n("demux_random_sequences", nrand);
+        // ---- demux (3): SSRC churn — many fresh SSRCs learnt from MID-routed packets, listeners closing in between,
+        //      explicit registrations and MID-less packets of earlier SSRCs: the table crosses the sweep thresholds
+        //      (16, then double) with stale bindings of closed listeners in it between two sweeps
+        let nchurn = if args.tier_thorough { 3_000 } else { 300 };
+        for _ in 0..nchurn {
+            let mut ops = vec![DOp::MidExt(3), DOp::Mid("0".into(), 0), DOp::Mid("1".into(), 1), DOp::Mid("2".into(), 2), DOp::Prov(3)];
+            let n = rng.range(20, 75) as usize;
+            let mut next_ssrc = 1000u32;
+            for _ in 0..n {
+                match rng.below(20) {
+                    0 => ops.push(DOp::Close(rng.below(3) as usize)),
+                    1 => { ops.push(DOp::Ssrc(next_ssrc, rng.below(4) as usize)); next_ssrc += 1; }
+                    2 | 3 => { // a MID-less packet of an SSRC seen earlier: finds its binding, stale or not
+                        let s = 1000 + rng.below((next_ssrc - 1000).max(1) as u64) as u32;
+                        ops.push(DOp::Pkt { ssrc: s, pt: 96, ext: None });
+                    }
+                    _ => { // a fresh SSRC routed by MID → binding learnt from the packet
+                        let m = [b"0", b"1", b"2"][rng.below(3) as usize];
+                        ops.push(DOp::Pkt { ssrc: next_ssrc, pt: 96, ext: Some(bede(&[(3, &m[..])])) });
+                        next_ssrc += 1;
+                    }
+                }
+            }
+            demit(&mut run, &ops).await;
+        }
+        run.count_n("demux_ssrc_churn_sequences", nchurn);
 
         // ---- bridge (1): exhaustive — rule tables (≤ 3 rules of a pool of 5) × all sequences of length L over
         //      the 16-symbol alphabet (2 sources × {6 timestamp steps, DTMF PT, video PT}); initial seq 65534
